@@ -112,9 +112,77 @@ class _Normalise(ast.NodeTransformer):
         self.in_function += 1
         self.generic_visit(node)
         self.in_function -= 1
+        self._explicit_iteration(node)
         return node
 
     visit_AsyncFunctionDef = visit_FunctionDef
+
+    @staticmethod
+    def _explicit_iteration(fn) -> None:
+        """
+        The hand-written iteration protocol is the loop statement it spells out:
+
+            it = X.__aiter__()                       it = iter(X)
+            while True:                              while True:
+                try:                                     try:
+                    v = await it.__anext__()                 v = next(it)
+                except StopAsyncIteration:               except StopIteration:
+                    break | return                           break | return
+                BODY                                     BODY
+
+        becomes ``async for v in X: BODY`` / ``for v in X: BODY`` (followed by ``return`` when the handler returned),
+        provided the iterator variable is used nowhere else.
+        """
+
+        def rewrite(block):
+            out = []
+            i = 0
+            while i < len(block):
+                st = block[i]
+                for fld in ("body", "orelse", "finalbody"):
+                    sub = getattr(st, fld, None)
+                    if isinstance(sub, list) and sub and isinstance(sub[0], ast.stmt) and not isinstance(st, (ast.FunctionDef, ast.AsyncFunctionDef, ast.ClassDef)):
+                        setattr(st, fld, rewrite(sub))
+                for h in getattr(st, "handlers", []) or []:
+                    h.body = rewrite(h.body)
+                nxt = block[i + 1] if i + 1 < len(block) else None
+                made = None
+                if isinstance(st, ast.Assign) and len(st.targets) == 1 and isinstance(st.targets[0], ast.Name) and isinstance(nxt, ast.While) and isinstance(nxt.test, ast.Constant) and nxt.test.value is True and not nxt.orelse and nxt.body and isinstance(nxt.body[0], ast.Try):
+                    it = st.targets[0].id
+                    val = st.value
+                    is_async = isinstance(val, ast.Call) and isinstance(val.func, ast.Attribute) and val.func.attr == "__aiter__" and not val.args
+                    is_sync = isinstance(val, ast.Call) and isinstance(val.func, ast.Name) and val.func.id == "iter" and len(val.args) == 1
+                    tr = nxt.body[0]
+                    if (is_async or is_sync) and len(tr.body) == 1 and isinstance(tr.body[0], ast.Assign) and len(tr.handlers) == 1 and not tr.orelse and not tr.finalbody:
+                        step = tr.body[0].value
+                        if is_async:
+                            ok_step = isinstance(step, ast.Await) and isinstance(step.value, ast.Call) and isinstance(step.value.func, ast.Attribute) and step.value.func.attr == "__anext__" and isinstance(step.value.func.value, ast.Name) and step.value.func.value.id == it
+                            stop_name = "StopAsyncIteration"
+                        else:
+                            ok_step = isinstance(step, ast.Call) and isinstance(step.func, ast.Name) and step.func.id == "next" and len(step.args) == 1 and isinstance(step.args[0], ast.Name) and step.args[0].id == it
+                            stop_name = "StopIteration"
+                        h = tr.handlers[0]
+                        ok_h = h.type is not None and ast.unparse(h.type).split(".")[-1] == stop_name and len(h.body) == 1 and isinstance(h.body[0], (ast.Break, ast.Return)) and (not isinstance(h.body[0], ast.Return) or h.body[0].value is None)
+                        uses = sum(1 for n in ast.walk(fn) if isinstance(n, ast.Name) and n.id == it)
+                        if ok_step and ok_h and uses == 2:
+                            source = val.func.value if is_async else val.args[0]
+                            loop_cls = ast.AsyncFor if is_async else ast.For
+                            body = nxt.body[1:] or [ast.Pass()]
+                            made = [loop_cls(target=tr.body[0].targets[0], iter=source, body=body, orelse=[], lineno=nxt.lineno, col_offset=nxt.col_offset)]
+                            if isinstance(h.body[0], ast.Return):
+                                made.append(ast.Return(value=None, lineno=nxt.lineno, col_offset=nxt.col_offset))
+                if made is not None:
+                    for m in made:
+                        ast.copy_location(m, nxt)
+                        ast.fix_missing_locations(m)
+                    out.extend(made)
+                    i += 2
+                    continue
+                out.append(st)
+                i += 1
+            return out
+
+        fn.body = rewrite(fn.body)
 
     def visit_ClassDef(self, node):  # noqa: N802
         saved, self.in_function = self.in_function, 0
